@@ -29,6 +29,8 @@ func (n *reNode) Process(ctx context.Context, e *eventlogger.Event) (*eventlogge
 		n.b.Send(ctx, "inner", "from-process")
 		n.b.IsAnyPipelineRegistered("inner")
 		n.b.SuccessThreshold("inner")
+		// Send holds no lock of the Broker while nodes run: a node may even change the registry
+		n.b.RegisterNode("scratch-from-process", &reNode{b: n.b, ty: eventlogger.NodeTypeFilter, processed: n.processed, hit: n.hit})
 	}
 	if n.ty == eventlogger.NodeTypeSink {
 		atomic.AddInt32(n.processed, 1)
@@ -133,6 +135,27 @@ func reentryMain(args []string) {
 					b.Send(ctx, "inner", "after")
 				})
 				atomic.StoreInt32(&stop, 1)
+				// every call gives the lock back on every path: Reopen with nothing (left) to reopen, getters and
+				// removals of unknown ids, then calls that need the write lock
+				ok = ok && watchdog("write calls after Reopen / getters / failed removals on an emptied broker", oracle, func() {
+					for _, id := range []eventlogger.NodeID{"x", "isink", "sink", "fmt", "re", "gated", "scratch-from-process", "w0", "w1", "w2"} {
+						b.RemovePipeline("inner", "px")
+						b.RemoveNode(ctx, id)
+					}
+					b.Reopen(ctx)
+					b.RemoveNode(ctx, "no-such-node")
+					b.RemovePipelineAndNodes(ctx, "inner", "no-such-pipeline")
+					b.SuccessThreshold("no-such-type")
+					b.IsAnyPipelineRegistered("no-such-type")
+					b.Send(ctx, "no-such-type", "x")
+					b.RegisterNode("after-all", mk(eventlogger.NodeTypeFilter))
+					b.SetSuccessThreshold("inner", 1)
+				})
+				fresh, _ := eventlogger.NewBroker()
+				ok = ok && watchdog("Reopen on a fresh broker, then RegisterNode", oracle, func() {
+					fresh.Reopen(ctx)
+					fresh.RegisterNode("n", mk(eventlogger.NodeTypeFilter))
+				})
 				st.Ops += 10 + pending
 				st.hit(fmt.Sprintf("writers=%v pending=%d ok=%v", writers, pending, ok))
 				if !ok {
